@@ -147,7 +147,7 @@ theorem pollDispatch_refs (x : Nat) (w w' : World) (op : Nat) (any : Bool) (rest
           | (rename_i hc
              cases h
              simp only [Bool.and_eq_true, beq_iff_eq] at hc
-             have := setObj_refs x { w with pending := w.pending - 1 } o { o with evR := false, tstate := .ready, cancelledRep := false } hn hg' rfl
+             have := setObj_refs x { w with pending := w.pending - 1 } o { o with evR := false, tstate := .ready, cancelledRep := (o.cancelledRep && info.kind != OpKind.timerRep) } hn hg' rfl
              simp only [refs, hst, frameRefs_cons, frameRef, setObj_posts] at this ⊢
              rw [this]
              have h0 := objRef_nonneg x o
